@@ -33,6 +33,16 @@ PReluCases(a, b) ==
           s == SemPRelu(X, S)
       IN ok => P(CaseRec("prelu", "PRelu", <<LowerT(X), LowerT(S)>>, LowerA(s), "num", <<Tag(s), dt>>, <<>>))
 
+\* PRelu on special values: zeros of either sign are passed through unchanged (they are not < 0) whatever the slope is, also an
+\* infinite or NaN slope; negative inputs take the IEEE product. Compared bit for bit (the sign of zero matters here).
+PReluSpecial(dt, off) ==
+   \A sl \in {NaN, PInf, NInf, Fin(-1), Fin(2), NZ} :
+      LET X == CatT(dt, <<6>>, off)
+          S == T(dt, <<1>>, <<sl>>)
+          ok == \A k \in 1..6 : PReluDefined(dt, X.data[k], sl)
+          s == SemPRelu(X, S)
+      IN ok => P(CaseRec("prelu", "PRelu", <<LowerT(X), LowerT(S)>>, LowerA(s), "bits", <<Tag(s), dt, "special_values">>, <<>>))
+
 TableCases(fn, shape) ==
    \A dt \in FloatTypes, off \in {0, 31, 57} :
       P(CaseRec("table", fn, <<GridX(fn, dt, shape, off)>>, MustValue(<<GridY(fn, dt, shape, off)>>),
@@ -52,7 +62,7 @@ Init ==
 Emit ==
    /\ ~st.done
    /\ CASE st.fam = "exact" -> ExactCases(st.shape)
-        [] st.fam = "prelu" -> PReluCases(st.a, st.b)
+        [] st.fam = "prelu" -> PReluCases(st.a, st.b) /\ (st.a = <<>> /\ st.b = <<>> => \A dt \in FloatTypes, off \in 0..13 : PReluSpecial(dt, off))
         [] st.fam = "table" -> TableCases(st.fn, st.shape)
         [] st.fam = "tablefull" -> TableFull(st.fn)
    /\ st' = [st EXCEPT !.done = TRUE]
